@@ -30,13 +30,23 @@ import (
 )
 
 const Rule = "cases = (workload, GOMAXPROCS, seed, iterations, goroutines): the workload program is built with " +
-	"`go build -race` from the current /repo tree and run once per case; every goroutine works only on instances " +
+	"`go build -race` from the current /repo tree and run once per case, a cold process each (the concurrent phase comes " +
+	"first, the sequential reference afterwards); every goroutine works only on instances " +
 	"it created itself (hash tables / sets iterated, FIRST/FOLLOW, LL(1), SLR/LALR/LR(1) tables, determinise+minimise, " +
 	"grammar transformations, the exported Eq/Cmp/Hash values, all other structures, and a mix of these against one " +
-	"another); the oracle is the property itself: no DATA RACE report and every goroutine's result equals its " +
+	"another; LARGE instances: hash tables of 4483..70001 entries (capacities past 97^2 = 9409 and 2^16) and explicit " +
+	"initial capacities 9413..131071 while small tables come and go, sets of 10^4 members, ordered tables / heaps / sorts / " +
+	"lists / union-find at 4483..70001, tries and graphs of 10^4, the lexer input with buffers of 4096 and 65536 bytes, " +
+	"grammars of 100..260 non-terminals and as many terminals; iterators obtained once and run twice, two pull iterators " +
+	"over one object advanced alternately, iterators abandoned half-way or never run, nested traversals, for every All() of " +
+	"the library; every exported constructor and package-level function no other workload calls directly); every workload " +
+	"runs with >= 4 goroutines under GOMAXPROCS 2, 4 and 16 (the large ones under all three in the quick tier, the others " +
+	"under one of them per seed and all of them in the thorough grid) besides the random (GOMAXPROCS 1..16, 2..6 goroutines) part; " +
+	"the oracle is the property itself: no DATA RACE report and every goroutine's result equals its " +
 	"sequential result; non-trivial = a library workload in which >= 2 goroutines ran to completion concurrently; " +
 	"distinct = distinct (workload, GOMAXPROCS, seed, iterations, goroutines). Two self-test workloads check the " +
-	"instrument: a deliberately racy counter inside the workload program must be reported, a private one must not."
+	"instrument: a deliberately racy counter inside the workload program must be reported, a private one must not. " +
+	"Cases are independent processes and run four at a time (VERIF_C20_PAR)."
 
 // The harness module (whose go.mod points at /repo) and the place of the race-instrumented binary.
 // VERIF_C20_HARNESS_DIR / VERIF_C20_BIN redirect them: used only to try the harness against a scratch
@@ -58,6 +68,22 @@ var Workloads = []string{"hashtable-iterate", "set-iterate", "first-follow", "gr
 	"lr-slr", "lr-lalr", "lr-canonical", "automata-determinize", "hash-api", "ordered-tables", "tries", "heaps",
 	"lexer-input", "graphs-dot", "parse-predictive", "parse-slr", "parse-lalr", "parse-lr1", "combinator",
 	"automata-combine", "grammar-normalize", "func-values", "structures", "mixed"}
+
+// LargeWorkloads (harness/c20/workload/large.go): LARGE private instances built concurrently from a cold process
+// (hash tables past 4482 / 10^4 / 65536 entries, sets of 10^4 members, everything else at 10^4..7*10^4, grammars with
+// hundreds of symbols), iterators obtained once and run twice / alternately / abandoned, and every exported
+// constructor and package-level function the other workloads do not call directly. They run with 4 and more
+// goroutines, one iteration each, and the sequential reference computed once (header ref=once).
+var LargeWorkloads = []string{"large-hashtables", "iter-twice", "api-sweep", "large-sets", "large-structures", "large-grammar"}
+
+func isLarge(w string) bool {
+	for _, l := range LargeWorkloads {
+		if l == w {
+			return true
+		}
+	}
+	return false
+}
 
 // apiPrefixes: which exported API entries (names as in the regenerated table, by prefix) a workload calls
 // directly.  Used ONLY to order the witness search (workloads that reach a flagged package-level variable
@@ -86,6 +112,12 @@ var apiPrefixes = map[string][]string{
 	"combinator":           {"parser/combinator."},
 	"automata-combine":     {"automata."},
 	"grammar-normalize":    {"grammar.NewCFG", "grammar.CFG.", "grammar.LongestCommonPrefixOf"},
+	"large-hashtables":     {"symboltable.NewChainHashTable", "symboltable.NewLinearHashTable", "symboltable.NewQuadraticHashTable", "symboltable.NewDoubleHashTable", "symboltable.chainHashTable.", "symboltable.linearHashTable.", "symboltable.quadraticHashTable.", "symboltable.doubleHashTable.", "hash.HashFuncForInt", "hash.HashFuncForString"},
+	"large-sets":           {"set."},
+	"iter-twice":           {"set.", "symboltable.", "trie.", "grammar.NewCFG", "grammar.Productions.", "grammar.CFG.ComputeF"},
+	"large-structures":     {"sort.", "radixsort.", "list.", "unionfind.", "heap.", "trie.", "graph.", "lexer/input.", "symboltable.NewBST", "symboltable.NewAVL", "symboltable.NewRedBlack", "symboltable.bst.", "symboltable.avl.", "symboltable.redBlack."},
+	"large-grammar":        {"grammar.NewCFG", "grammar.CFG.", "parser/predictive.", "parser/lr/simple."},
+	"api-sweep":            {"generic.", "set.New", "sort.", "radixsort.", "hash.", "errors.", "dot.", "automata.New", "grammar.", "parser/lr.", "parser/lr/lookahead.", "parser/predictive.", "parser/combinator.", "graph.New"},
 	"func-values":          {"grammar.Hash", "grammar.Eq", "grammar.Cmp", "automata.Hash", "automata.Eq", "automata.Cmp", "parser/lr.Hash", "parser/lr.Eq", "parser/lr.Cmp", "parser.EqNode", "errors."},
 }
 
@@ -321,14 +353,18 @@ type outcome struct {
 	done    int // goroutines that reported a verdict
 }
 
-func runWorkload(w string, procs int, seed uint64, iters, k int) (outcome, error) {
+func runWorkload(w string, procs int, seed uint64, iters, k int, ref string) (outcome, error) {
 	if err := ensureBuilt(); err != nil {
 		return outcome{}, err
 	}
-	ctx, cancel := context.WithTimeout(context.Background(), 180*time.Second)
+	ctx, cancel := context.WithTimeout(prefetchCtx, 180*time.Second)
 	defer cancel()
-	cmd := exec.CommandContext(ctx, binPath, "-w", w, "-procs", strconv.Itoa(procs), "-seed", strconv.FormatUint(seed, 10),
-		"-iters", strconv.Itoa(iters), "-k", strconv.Itoa(k))
+	args := []string{"-w", w, "-procs", strconv.Itoa(procs), "-seed", strconv.FormatUint(seed, 10),
+		"-iters", strconv.Itoa(iters), "-k", strconv.Itoa(k)}
+	if ref == "once" {
+		args = append(args, "-ref", "once")
+	}
+	cmd := exec.CommandContext(ctx, binPath, args...)
 	cmd.Env = append(goEnv(), "GORACE=halt_on_error=0 atexit_sleep_ms=0 exitcode=0")
 	var so bytes.Buffer
 	se := &cappedReports{limit: maxReports}
@@ -340,6 +376,9 @@ func runWorkload(w string, procs int, seed uint64, iters, k int) (outcome, error
 		err = cmd.Wait()
 	}
 	ms := time.Since(t0).Milliseconds()
+	if prefetchCtx.Err() != nil {
+		return outcome{}, fmt.Errorf("cancelled")
+	}
 	if ctx.Err() != nil {
 		return outcome{}, fmt.Errorf("timeout")
 	}
@@ -424,6 +463,7 @@ func Exec(c hx.Case) hx.Result {
 	seed, _ := strconv.ParseUint(hx.HeaderGet(c.Header, "seed"), 10, 64)
 	iters := atoi(hx.HeaderGet(c.Header, "iters"), 3)
 	k := atoi(hx.HeaderGet(c.Header, "k"), 2)
+	ref := hx.HeaderGet(c.Header, "ref")
 	if procs < 1 {
 		procs = 1
 	}
@@ -437,7 +477,19 @@ func Exec(c hx.Case) hx.Result {
 			res.Outs = append(res.Outs, "bad-op")
 			continue
 		}
-		o, err := runWorkload(w, procs, seed, iters, k)
+		var o outcome
+		var err error
+		got := false
+		if i == 0 {
+			if p := takePrefetched(c.Header); p != nil {
+				if pr := <-p; pr.err == nil || pr.err.Error() != "cancelled" {
+					o, err, got = pr.o, pr.err, true
+				}
+			}
+		}
+		if !got {
+			o, err = runWorkload(w, procs, seed, iters, k, ref)
+		}
 		if err != nil {
 			if err.Error() == "timeout" {
 				res.Outs = append(res.Outs, "hang")
@@ -490,7 +542,95 @@ func indent(s string) string {
 }
 
 func header(w string, procs int, seed uint64, iters, k int) string {
-	return fmt.Sprintf("comp=%s procs=%d seed=%d iters=%d k=%d", w, procs, seed, iters, k)
+	h := fmt.Sprintf("comp=%s procs=%d seed=%d iters=%d k=%d", w, procs, seed, iters, k)
+	if isLarge(w) {
+		h += " ref=once"
+	}
+	return h
+}
+
+// ---- cases are independent processes: those of a run are started ahead of time, a few at once, and Exec picks
+// the result up (one-shot: the re-runs of the shrinker execute for real). VERIF_C20_PAR = how many at once.
+
+type prefetched struct {
+	o   outcome
+	err error
+}
+
+var (
+	prefetchCtx, prefetchCancel = context.WithCancel(context.Background())
+	preMu                       sync.Mutex
+	pre                         = map[string][]chan prefetched{}
+)
+
+func takePrefetched(hdr string) chan prefetched {
+	preMu.Lock()
+	defer preMu.Unlock()
+	q := pre[hdr]
+	if len(q) == 0 {
+		return nil
+	}
+	pre[hdr] = q[1:]
+	return q[0]
+}
+
+func parallelism() int {
+	if v, err := strconv.Atoi(os.Getenv("VERIF_C20_PAR")); err == nil && v >= 1 {
+		return v
+	}
+	return 4
+}
+
+// prefetch starts the cases' workload processes, in order, at most parallelism() at a time.
+func prefetch(cs []hx.Case) {
+	if err := ensureBuilt(); err != nil {
+		return // Exec reports it
+	}
+	type job struct {
+		hdr string
+		ch  chan prefetched
+	}
+	var jobs []job
+	preMu.Lock()
+	for _, c := range cs {
+		if len(c.Ops) != 1 || strings.TrimSpace(c.Ops[0]) != "run" {
+			continue
+		}
+		ch := make(chan prefetched, 1)
+		pre[c.Header] = append(pre[c.Header], ch)
+		jobs = append(jobs, job{c.Header, ch})
+	}
+	preMu.Unlock()
+	feed := make(chan job)
+	for n := parallelism(); n > 0; n-- {
+		go func() {
+			for j := range feed {
+				if prefetchCtx.Err() != nil {
+					j.ch <- prefetched{err: fmt.Errorf("cancelled")}
+					continue
+				}
+				w := hx.HeaderGet(j.hdr, "comp")
+				procs := atoi(hx.HeaderGet(j.hdr, "procs"), 2)
+				seed, _ := strconv.ParseUint(hx.HeaderGet(j.hdr, "seed"), 10, 64)
+				iters := atoi(hx.HeaderGet(j.hdr, "iters"), 3)
+				k := atoi(hx.HeaderGet(j.hdr, "k"), 2)
+				if procs < 1 {
+					procs = 1
+				}
+				if k < 1 {
+					k = 1
+				}
+				o, err := runWorkload(w, procs, seed, iters, k, hx.HeaderGet(j.hdr, "ref"))
+				j.ch <- prefetched{o, err}
+			}
+		}()
+	}
+	go func() {
+		for _, j := range jobs {
+			feed <- j
+		}
+		close(feed)
+	}()
 }
 
 // search is a witness-search round of bin/check: a proof obligation or the correspondence already broke
@@ -510,7 +650,7 @@ func search(run *hx.Run) {
 	for _, w := range ws {
 		seen[w] = true
 	}
-	for _, w := range Workloads { // then everything else
+	for _, w := range append(append([]string{}, LargeWorkloads[:3]...), Workloads...) { // then everything else
 		if !seen[w] {
 			ws = append(ws, w)
 		}
@@ -521,6 +661,9 @@ func search(run *hx.Run) {
 	for pass := 0; time.Now().Before(deadline); pass++ {
 		for _, w := range ws {
 			c := grid[(pass+r.Intn(len(grid)))%len(grid)]
+			if isLarge(w) { // one (cold) iteration of 4..8 goroutines under GOMAXPROCS 2, 4, 16
+				c = cfg{[]int{4, 2, 16}[pass%3], 4 + 2*(pass%3), 1}
+			}
 			res := run.Do(w, hx.Case{Header: header(w, c.procs, r.U64()%1000000, c.iters, c.k), Ops: []string{"run"}}, Exec)
 			if res.BadOp >= 0 || !time.Now().Before(deadline) {
 				return
@@ -536,33 +679,49 @@ func Main(run *hx.Run) {
 		finishStats(run)
 		return
 	}
+	defer prefetchCancel()
+	var cases []hx.Case
+	add := func(w string, procs int, seed uint64, iters, k int) {
+		cases = append(cases, hx.Case{Header: header(w, procs, seed, iters, k), Ops: []string{"run"}})
+	}
 	for _, f := range hx.CorpusFiles("C20") {
 		cs, _ := hx.ReadReplay(f)
-		for _, c := range cs {
-			run.Do(hx.HeaderGet(c.Header, "comp"), c, Exec)
-		}
+		cases = append(cases, cs...)
 	}
 	r := run.R.Fork("schedules")
 	procsChoices := []int{1, 2, 3, 4, 8}
-	do := func(w string, procs int, seed uint64, iters, k int) {
-		if len(run.Stats.Violations) >= 3 {
-			return // the verdict is settled; every further failing case costs several shrinking re-runs
-		}
-		run.Do(w, hx.Case{Header: header(w, procs, seed, iters, k), Ops: []string{"run"}}, Exec)
-	}
+	procs3 := []int{2, 4, 16}
 	// the instrument first
-	do("selftest-race", 2, run.Seed, 2, 2)
-	do("selftest-private", 2, run.Seed, 2, 2)
-	// every workload under several GOMAXPROCS values and seeds
+	add("selftest-race", 2, run.Seed, 2, 2)
+	add("selftest-private", 2, run.Seed, 2, 2)
+	// the large / unusual-use workloads: 4 and more goroutines, one cold iteration each, GOMAXPROCS 2, 4, 16.
+	// Thorough adds four rounds with other seeds, 4..8 goroutines and up to two iterations.
+	for _, w := range LargeWorkloads {
+		for _, p := range procs3 {
+			add(w, p, r.U64()%1000000, 1, 4)
+		}
+	}
+	if run.Thorough() {
+		for round := 0; round < 4; round++ {
+			for _, w := range LargeWorkloads {
+				add(w, procs3[(round+r.Intn(3))%3], r.U64()%1000000, 1+r.Intn(2), 4+r.Intn(5))
+			}
+		}
+	}
+	// every workload under several GOMAXPROCS values and seeds; the first round with 4 goroutines under
+	// GOMAXPROCS 2 / 4 / 16 in turn
 	rounds := run.Scale(2)
 	if run.Thorough() && rounds > 16 {
-		rounds = 16 // 16 rounds x 17 workloads with up to 6 goroutines x 9 iterations: about 4 minutes
+		rounds = 16 // 16 rounds x 25 workloads with up to 6 goroutines x 9 iterations
 	}
 	for round := 0; round < rounds; round++ {
-		for _, w := range Workloads {
+		for wi, w := range Workloads {
 			procs := procsChoices[(round+r.Intn(len(procsChoices)))%len(procsChoices)]
 			k := 2 + r.Intn(2)
 			iters := 2 + r.Intn(3)
+			if round == 0 {
+				procs, k, iters = procs3[(wi+int(run.Seed))%3], 4, 2
+			}
 			if run.Thorough() {
 				k = 2 + r.Intn(5)
 				iters = 2 + r.Intn(8)
@@ -570,17 +729,25 @@ func Main(run *hx.Run) {
 					procs = 16
 				}
 			}
-			do(w, procs, r.U64()%1000000, iters, k)
+			add(w, procs, r.U64()%1000000, iters, k)
 		}
 	}
 	if run.Thorough() {
-		// a fixed grid on top of the random part: every workload at GOMAXPROCS 1, 2, 4 with 4 goroutines
+		// a fixed grid on top of the random part: every workload at GOMAXPROCS 1, 2, 4, 16 with 4 goroutines
 		for _, w := range Workloads {
-			for _, p := range []int{1, 2, 4} {
-				do(w, p, uint64(100+p), 6, 4)
+			for _, p := range []int{1, 2, 4, 16} {
+				add(w, p, uint64(100+p), 6, 4)
 			}
 		}
-		run.Stats.Extra["grid"] = "every workload x GOMAXPROCS {1,2,4} x 4 goroutines x 6 iterations"
+		run.Stats.Extra["grid"] = "every workload x GOMAXPROCS {1,2,4,16} x 4 goroutines x 6 iterations; every large workload x GOMAXPROCS {2,4,16} x 4 goroutines + 4 random rounds with 4..8 goroutines"
+	}
+	run.Stats.Extra["parallel_processes"] = parallelism()
+	prefetch(cases)
+	for _, c := range cases {
+		if len(run.Stats.Violations) >= 3 {
+			break // the verdict is settled; every further failing case costs several shrinking re-runs
+		}
+		run.Do(hx.HeaderGet(c.Header, "comp"), c, Exec)
 	}
 	finishStats(run)
 }
